@@ -20,6 +20,12 @@ type Params struct {
 	// HardTarget starts the chain at a non-trivial difficulty (about 4096 hashes per block) so
 	// that per-branch timestamps make total work diverge from chain length.
 	HardTarget bool
+	// Oak, if non-zero, is the height of the Oak difficulty hardfork (default 1: the pre-Oak
+	// retargeting every 500 blocks, which reads the timestamp of the 1000th ancestor, is then never
+	// active); SlowInterval makes blocks arrive faster than the target interval so that pre-Oak
+	// retargets actually change the target.
+	Oak          uint64
+	SlowInterval bool
 }
 
 // World is everything deterministic about a scenario: network, genesis, keys.
@@ -60,6 +66,19 @@ func NewWorld(p Params) *World {
 	n.HardforkTax.Height = 1
 	n.HardforkStorageProof.Height = 1
 	n.HardforkOak.Height = 1
+	if p.Oak != 0 {
+		n.HardforkOak.Height = p.Oak
+		if n.HardforkOak.FixHeight < p.Oak {
+			n.HardforkOak.FixHeight = p.Oak
+		}
+		defer func() { // the later hardforks may not precede Oak
+			n.HardforkASIC.Height = p.Oak + 1000 // (resets the target to a real-world difficulty)
+			n.HardforkFoundation.Height = p.Oak + 1001
+		}()
+	}
+	if p.SlowInterval {
+		n.BlockInterval = 20 * time.Second // blocks come every 10 s (+0..8 s): each pre-Oak retarget makes the target harder by a factor inside the clamp (never saturating)
+	}
 	n.HardforkASIC.Height = 1
 	n.HardforkFoundation.Height = 1
 	n.HardforkV2.AllowHeight = p.Allow
